@@ -165,6 +165,32 @@ elif a < 6:
 else:
     mon.write("high")
 ''',
+    "elif_pass": '''
+if a < -100:
+    mon.write("low")
+elif a < 100:
+    pass
+else:
+    mon.write("high")
+mon.write("end")
+''',
+    "elif_print_only": '''
+if a < -100:
+    mon.write("low")
+elif a < 100:
+    print("host only")
+elif a < 200:
+    mon.write("mid")
+else:
+    mon.write("high")
+''',
+    "derived_after_loop": '''
+base = 1
+for i in range(4):
+    base = base + i
+limit = base * 2
+mon.write(limit)
+''',
     "nested_if": '''
 if a > 0:
     if b > 0:
@@ -416,6 +442,24 @@ def bump(v):
 ''', '''
 mon.write(bump(a))
 mon.write(base)
+'''),
+    "fn_bool_or_int": ('''
+def step_for(level):
+    if level <= 0:
+        return False
+    return level * 20
+''', '''
+mon.write(step_for(a) + 1)
+sleep(step_for(3))
+'''),
+    "fn_recursive": ('''
+def depth(n):
+    if n <= 0:
+        return 0
+    below = depth(n - 1)
+    return below + 2
+''', '''
+mon.write(depth(3))
 '''),
     "fn_early_return": ('''
 def clampv(v):
@@ -711,6 +755,27 @@ def mix(p, q):
     q = q * 0.25
     return p + q
 ''', 'mon.write(mix(a, b))\nmon.write(mix(1, 2))\n'),
+    "recursive_float": ('''
+def backoff(n):
+    if n <= 0:
+        return 0.5
+    previous = backoff(n - 1)
+    return previous * 1.5
+''', 'mon.write(backoff(2))\n'),
+    "recursive_float_param": ('''
+def grow(n, x):
+    if n <= 0:
+        return x
+    return grow(n - 1, x * 1.5)
+''', 'mon.write(grow(2, a))\n'),
+    "loop_int_then_aug_float": ('''
+def settle(n):
+    level = 0
+    for i in range(n):
+        level = i
+        level += 0.5
+    return level
+''', 'mon.write(settle(3))\n'),
     "hoist_in_fn": ('''
 def boost(v):
     if v > 0:
@@ -822,6 +887,13 @@ def fold_family(tier="quick") -> List[Tuple[str, str]]:
     cases["param_shadows_const_list"] = H2 + 'xs = [1, 2]\nys = [4, 5, 6]\ndef size(xs):\n    return len(xs)\nn = size(ys)\nmon.write(n)\nwhile True:\n    sleep(n * 10)\n    mon.write(len(xs))\n'
     cases["param_shadows_pin"] = H2 + "pin = 9\ndef level(pin):\n    return pin + 1\nled = Led(pin)\nwhile True:\n" + READ_AB + "    led.set_brightness(level(a + 600) // 8)\n"
     cases["local_shadows_const"] = H2 + "k = 4\ndef wait(n):\n    k = n + 1\n    sleep(k * 5)\nwhile True:\n" + READ_AB + "    wait(a + 600)\n    sleep(k)\n"
+    cases["chained_cmp_false_tail"] = H2 + "while True:\n    sleep(100 if 1 <= 5 <= 3 else 20)\n    sleep(10 + (5 if 2 < 9 < 8 else 1))\n"
+    cases["chained_cmp_const_var"] = H2 + 'level = 9\nlabel = "OK" if 2 < level < 8 else "ALARM"\npad = 16 - len(label)\nwhile True:\n    sleep(pad * 10)\n    mon.write(label)\n'
+    cases["chained_cmp_three"] = H2 + "k = 3 if 1 < 2 < 3 < 2 else 7\nwhile True:\n    sleep(k * 10)\n"
+    cases["derived_after_branch"] = H2 + "base = 200\n" + RD + "if v > 512:\n    base = 50\nperiod = base * 2\n" + "while True:\n    sleep(period)\n    mon.write(period)\n"
+    cases["derived_after_loop"] = H2 + "base = 1\nfor i in range(4):\n    base = base + i\nlimit = base * 2\nwhile True:\n    sleep(limit)\n    mon.write(limit)\n"
+    cases["derived_after_try"] = H2 + "base = 1\ntry:\n    base = 5\nexcept:\n    base = 9\nlimit = base + 1\nwhile True:\n    sleep(limit * 10)\n"
+    cases["derived_after_global_fn"] = H2 + "count = 0\ndef bump():\n    global count\n    count += 1\nbump()\ntotal = count + 1\nwhile True:\n    sleep(total * 10)\n    mon.write(total)\n"
     cases["tuple_consts"] = H2 + "p, q = 3, 4\np, q = q, p + q\nwhile True:\n    sleep(p * 10)\n    sleep(q * 10)\n"
     return [(f"fold/{k}", v) for k, v in cases.items()]
 
